@@ -659,8 +659,8 @@ Proof. exact rx_valid_spec. Qed.
 Print Assumptions C14_rx_valid_spec.
 
 (* each turn of the parse loop reads at least one byte of the expression *)
-Theorem C14_rx_lex_progress : forall flags b t tok rest,
-  lex flags b t = Ok (tok, rest) -> (length rest <= length t)%nat.
+Theorem C14_rx_lex_progress : forall fuel flags b t tok rest,
+  lex fuel flags b t = Ok (tok, rest) -> (length rest <= length t)%nat.
 Proof. exact lex_lt. Qed.
 Print Assumptions C14_rx_lex_progress.
 
